@@ -7,6 +7,7 @@ import Acv.Model.Peg
 import Acv.Model.Message
 import Acv.Model.ReportIds
 import Acv.Model.LexIndex
+import Acv.Gen.Tables
 import Acv.Gen.PathGrammar
 import Acv.Gen.Pipeline
 /-! protocol operations: one JSON case in, one JSON line out -/
@@ -207,6 +208,13 @@ def opC14 (j : Json) : R Json := do
       | none => Json.null)
   return Json.mkObj [("byFocus", Json.mkObj locs)]
 
+/-- c08: must a profile calling this built-in be rejected by the deny-list? -/
+def opC08 (j : Json) : R Json := do
+  let b ← fldStr j "builtin"
+  return Json.mkObj [("denied", Json.bool (Gen.denyList.contains b)),
+    ("forbidden", Json.bool (["http.send", "net.lookup_ip_addr", "opa.runtime", "rego.parse_module", "walk"].contains b)),
+    ("known", Json.bool (Gen.engineBuiltins.contains b))]
+
 def runOp (j : Json) : R Json := do
   match ← fldStr j "op" with
   | "c01" => opC01 j
@@ -218,6 +226,7 @@ def runOp (j : Json) : R Json := do
   | "c13" => opC13 j
   | "c12" => opC12 j
   | "c14" => opC14 j
+  | "c08" => opC08 j
   | op => throw s!"unknown op {op}"
 
 def handleLine (line : String) : String :=
